@@ -93,8 +93,8 @@ void gen_rounds(Plan *p, Rng *g, int tier, int max_rounds, int64_t max_bytes)
 			if (!active) continue;
 			int64_t n = draw_size(g, max_bytes);
 			r->n[d] = n;
-			static const int64_t wc[] = { 0, 0, 0, 1, 17, 100, 1000, 16384, 16385, 20000 };
-			int64_t w = pick(g, wc, 10);
+			static const int64_t wc[] = { 0, 0, 0, 1, 17, 51, 100, 115, 1000, 16384, 16385, 20000 };   /* 51, 115: sequence number + header + payload fill whole hash blocks */
+			int64_t w = pick(g, wc, 12);
 			if (w && n / w > 48) w = n / 48 + 1;
 			if (rng_chance(g, 1, 12) && max_bytes >= 300) {
 				/* a long-lived direction: 258..297 small records, so that sequence numbers carry out of their lowest byte */
